@@ -46,7 +46,7 @@ def opCmd (args : List String) : String :=
     match prog.run rest with
     | some ((ss, objs, ls), _) =>
       let sopts := writeSources ss
-      let lumps : List Lump := ls.map fun (c, p, att) => ⟨c, p, normAtt true objs att⟩
+      let lumps : List Lump := ls.map fun (c, p, att) => ⟨c, p, writeAtt true objs att⟩
       let lopts := writeLoads lumps
       let rtS := match readSources 5 sopts with
         | .ok ss' => decide (ss' = ss)
